@@ -164,10 +164,6 @@ func (h *RealtimeHandler) HandleParticipantJoin(ctx context.Context, handleFrame
 		return nil
 	}
 
-	if h.currentParticipant != nil {
-		h.leaveSession()
-	}
-
 	session, ok := h.Sessions.GetByGlobalID(req.SessionId)
 	if !ok && req.SessionId != "" {
 		respond.Send(&hagallpb.ErrorResponse{
@@ -177,6 +173,10 @@ func (h *RealtimeHandler) HandleParticipantJoin(ctx context.Context, handleFrame
 			Code:      hagallpb.ErrorCode_ERROR_CODE_NOT_FOUND,
 		})
 		return nil
+	}
+
+	if h.currentParticipant != nil {
+		h.leaveSession()
 	}
 
 	if !ok {
